@@ -18,6 +18,8 @@ for f in sorted(glob.glob('/verif/seeded/*/meta.json')):
     elif cr.get('detected'):
         vh, h = cr.get('violating_histories'), cr.get('histories')
         now = "yes" + (f" ({vh} of {h} histories)" if vh is not None and h else "")
+    elif m.get('check_run_thorough', {}).get('detected'):
+        now = "quick: **no**; thorough: yes (see meta.json)"
     else:
         now = "**no**"; not_detected.append(m['id'])
     if first: missed_first.append(m['id'])
